@@ -1,18 +1,149 @@
 (* C17/Props.v -- property theorems only (closed by [exact] of a lemma from
-   C17/Proofs.v / C17/ArrProofs.v) followed by Print Assumptions. *)
+   C17/Proofs.v, C17/ProofsDisc.v or C17/ArrProofs.v) + Print Assumptions.
+
+   Reading guide.  [tens_ufunc]/[disc_ufunc] (C17/Model.v) model
+   NumpyTensor.__array_ufunc__ / DiscretizedSpaceElement.__array_ufunc__ over a
+   store of buffers; [raw_ufunc] is "the same ufunc method called on the
+   underlying arrays".  NumPy itself is the parameter [NP] : ANY function from a
+   request (method, keyword options, input arrays/scalars, out descriptors) to
+   an error or a list of result arrays; [T] (the number type) and [cast] (dtype
+   conversion) are arbitrary too.  So every theorem below holds for every
+   ufunc, method, dtype, shape, operand mix and keyword option at once.
+   [map_opt tens_unwrap ins = Some rins] says: the operands are NumpyTensors,
+   ndarrays or scalars in any order, and [rins] are their underlying
+   buffers/scalars in the same order. *)
 From Coq Require Import ZArith QArith List Bool Arith.
 From Verif Require Import Base.Num Lib.Axis C17.Arr C17.Model C17.Proofs.
 Import ListNotations.
 
 (* Wrapping an array of matching dtype and shape shares memory with it and
    asarray() round-trips: space.element(arr) is an element whose data buffer IS
-   arr's buffer (no new buffer is allocated, the store is unchanged). *)
+   arr's buffer (no new buffer, store unchanged). *)
 Theorem wrap_shares_memory :
-  forall (T : Type) (cast : dt -> dt -> T -> T)
-         (st : @store T) (sp : tspace) (id : nat),
+  forall (T : Type) (cast : dt -> dt -> T -> T) (st : @store T) (sp : tspace) (id : nat),
   shape_eqb (a_shape (rd st id)) (ts_shape sp) = true ->
   dt_eqb (a_dt (rd st id)) (ts_dt sp) = true ->
   t_element cast st sp (OpArr id) = Ok (OpTens sp id, st)
   /\ asarray (OpTens sp id : @operand T) = Some id.
 Proof. exact @element_shares. Qed.
 Print Assumptions wrap_shares_memory.
+
+(* np.<ufunc>(x, ...) without out, NumpyTensor operands mixed with arrays and
+   scalars in any order (1 or 2 outputs).  SOUND: whenever ODL returns, NumPy on
+   the underlying arrays returns too, leaves the identical store (same numbers,
+   nothing else touched) and each returned element is a NumpyTensor over the
+   very buffer NumPy produced, in a space with that buffer's shape and dtype. *)
+Theorem tensor_call_transparent :
+  forall (T : Type) (cast : dt -> dt -> T -> T) (NP : @npsem T) (st : @store T) (sp : tspace)
+         (nout : nat) (ins : list (@operand T)) (kw : kwargs) (rins : list (@rop T))
+         (rets : list (@operand T)) (st' : @store T),
+  map_opt tens_unwrap ins = Some rins ->
+  tens_ufunc cast NP st sp nout MCall ins kw [] = Ok (rets, st') ->
+  exists rrets,
+    raw_ufunc cast NP st MCall kw rins (repeat None nout) = Ok (rrets, st')
+    /\ Forall2 (fun r rr => exists spc id, r = OpTens spc id /\ rr = RRBuf id
+                  /\ ts_shape spc = a_shape (rd st' id) /\ ts_dt spc = a_dt (rd st' id))
+               rets rrets.
+Proof. exact @tens_call_sound. Qed.
+Print Assumptions tensor_call_transparent.
+
+(* The converse direction of the FULL property,
+     "whenever NumPy succeeds on the underlying arrays, so does the ODL call",
+   is FALSE of the faithful model (findings tensor-call-broadcast-grow and
+   tensor-dtype-kw-array-weighting; see Refuted.v); what holds is: COMPLETE
+   under exactly the two guards the code imposes -- every result has the shape
+   of self's space, and the result space can be constructed (an array weighting
+   must be safely castable to the result dtype). *)
+Theorem tensor_call_complete_partial :
+  forall (T : Type) (cast : dt -> dt -> T -> T) (NP : @npsem T) (st : @store T) (sp : tspace)
+         (nout : nat) (ins : list (@operand T)) (kw : kwargs) (rins : list (@rop T))
+         (rrets : list (@rret T)) (st' : @store T),
+  map_opt tens_unwrap ins = Some rins ->
+  (nout = 1 \/ nout = 2)%nat ->
+  raw_ufunc cast NP st MCall kw rins (repeat None nout) = Ok (rrets, st') ->
+  Forall (fun rr => exists id, rr = RRBuf id /\ a_shape (rd st' id) = ts_shape sp
+                     /\ ts_valid (call_space sp nout (rd st' id)) = true) rrets ->
+  exists rets, tens_ufunc cast NP st sp nout MCall ins kw [] = Ok (rets, st').
+Proof. exact @tens_call_complete. Qed.
+Print Assumptions tensor_call_complete_partial.
+
+(* reduce / accumulate / outer / at / reduceat without out: SOUND -- same store
+   as NumPy; a scalar result is returned as that scalar, None (at) as None, an
+   array result as a NumpyTensor over NumPy's buffer with its shape and dtype. *)
+Theorem tensor_method_transparent :
+  forall (T : Type) (cast : dt -> dt -> T -> T) (NP : @npsem T) (st : @store T) (sp : tspace)
+         (nout : nat) (m : meth) (ins : list (@operand T)) (kw : kwargs) (rins : list (@rop T))
+         (rets : list (@operand T)) (st' : @store T),
+  is_call m = false ->
+  map_opt tens_unwrap ins = Some rins ->
+  tens_ufunc cast NP st sp nout m ins kw [] = Ok (rets, st') ->
+  exists rr,
+    raw_ufunc cast NP st m kw rins (if is_at m then [] else [None]) = Ok ([rr], st')
+    /\ exists r, rets = [r] /\
+       match rr with
+       | RRScal v => r = OpScal v
+       | RRNone => r = OpNone
+       | RRBuf id => exists spc, r = OpTens spc id
+                      /\ ts_shape spc = a_shape (rd st' id) /\ ts_dt spc = a_dt (rd st' id)
+       end.
+Proof. exact @tens_meth_sound. Qed.
+Print Assumptions tensor_method_transparent.
+
+(* ... and COMPLETE for these methods whenever the result space can be built
+   (only an array weighting that cannot be cast to the result dtype prevents it). *)
+Theorem tensor_method_complete_partial :
+  forall (T : Type) (cast : dt -> dt -> T -> T) (NP : @npsem T) (st : @store T) (sp : tspace)
+         (nout : nat) (m : meth) (ins : list (@operand T)) (kw : kwargs) (rins : list (@rop T))
+         (rr : @rret T) (st' : @store T),
+  is_call m = false ->
+  map_opt tens_unwrap ins = Some rins ->
+  raw_ufunc cast NP st m kw rins (if is_at m then [] else [None]) = Ok ([rr], st') ->
+  (forall id, rr = RRBuf id -> ts_valid (meth_space sp (rd st' id)) = true) ->
+  exists r, tens_ufunc cast NP st sp nout m ins kw [] = Ok ([r], st').
+Proof. exact @tens_meth_complete. Qed.
+Print Assumptions tensor_method_complete_partial.
+
+(* out= given as a NumpyTensor or an ndarray (any method but at, no dtype=
+   keyword): ODL returns exactly the given container, and the final store is
+   exactly the one NumPy leaves when writing into that container's buffer --
+   in both directions (ODL succeeds iff NumPy does). *)
+Theorem tensor_out_written_and_returned :
+  forall (T : Type) (cast : dt -> dt -> T -> T) (NP : @npsem T) (st : @store T) (sp : tspace)
+         (m : meth) (ins : list (@operand T)) (kw : kwargs) (rins : list (@rop T))
+         (o : @operand T) (id : nat) (rets : list (@operand T)) (st' : @store T),
+  (forall q rs, NP q = Ok rs -> length rs = 1%nat) ->
+  is_at m = false -> kw_dtype kw = None ->
+  tens_valid_out (Some o) = true -> op_buf o = Some id ->
+  map_opt tens_unwrap ins = Some rins ->
+  tens_ufunc cast NP st sp 1 m ins kw [Some o] = Ok (rets, st') ->
+  rets = [o] /\ raw_ufunc cast NP st m kw rins [Some id] = Ok ([RRBuf id], st').
+Proof. exact @tens_out_sound. Qed.
+Print Assumptions tensor_out_written_and_returned.
+
+Theorem tensor_out_complete :
+  forall (T : Type) (cast : dt -> dt -> T -> T) (NP : @npsem T) (st : @store T) (sp : tspace)
+         (m : meth) (ins : list (@operand T)) (kw : kwargs) (rins : list (@rop T))
+         (o : @operand T) (id : nat) (rrets : list (@rret T)) (st' : @store T),
+  (forall q rs, NP q = Ok rs -> length rs = 1%nat) ->
+  is_at m = false -> kw_dtype kw = None ->
+  tens_valid_out (Some o) = true -> op_buf o = Some id ->
+  map_opt tens_unwrap ins = Some rins ->
+  raw_ufunc cast NP st m kw rins [Some id] = Ok (rrets, st') ->
+  tens_ufunc cast NP st sp 1 m ins kw [Some o] = Ok ([o], st').
+Proof. exact @tens_out_complete. Qed.
+Print Assumptions tensor_out_complete.
+
+(* "and changes nothing else": a raw ufunc call changes no buffer other than
+   the given out buffers (and, for at, its first operand); together with the
+   store equalities above this is the frame property of the ODL call. *)
+Theorem ufunc_changes_only_out :
+  forall (T : Type) (cast : dt -> dt -> T -> T) (NP : @npsem T) (st : @store T) (m : meth)
+         (kw : kwargs) (ins : list (@rop T)) (outs : list (option nat))
+         (l : list (@rret T)) (st' : @store T),
+  raw_ufunc cast NP st m kw ins outs = Ok (l, st') ->
+  forall j, (j < length st)%nat ->
+    ~ In j (flat_map (fun o => match o with Some i => [i] | None => [] end) outs) ->
+    (is_at m = true -> match ins with RopBuf a :: _ => j <> a | _ => True end) ->
+    rd st' j = rd st j.
+Proof. exact @raw_frame. Qed.
+Print Assumptions ufunc_changes_only_out.
